@@ -299,10 +299,12 @@ fn lib_checks(texts: &[J]) -> J {
 }
 
 fn accepted_events<F: Fam>(out: &mut Out, origin: &str, bytes: &[u8], want_reenc: bool, want_decoded: bool) {
-    let fronts: [(&str, J); 3] = [
+    // (the async decoder also over a transport that delivers three bytes per read: a field then arrives in pieces)
+    let fronts: [(&str, J); 4] = [
         ("block", dec_block::<F>(bytes)),
         ("async", dec_async::<F>(bytes, usize::MAX)),
         ("poll", dec_poll::<F>(bytes, usize::MAX)),
+        ("async3", dec_async::<F>(bytes, 3)),
     ];
     let async_pos = fronts[1].1["pos"].as_u64();
     for (front, r) in &fronts {
@@ -312,6 +314,7 @@ fn accepted_events<F: Fam>(out: &mut Out, origin: &str, bytes: &[u8], want_reenc
         let pj = &r["v"];
         let consumed = match *front {
             "poll" => r["total"].as_u64(),
+            "async3" => r["pos"].as_u64(),
             _ => async_pos,
         };
         if want_decoded {
@@ -613,6 +616,35 @@ pub fn extreme_value_frames() -> Vec<(&'static str, Vec<u8>)> {
     let mut body = field(b"t");
     body.extend_from_slice(&[0xFF, 0xFF]);
     out.push(("v3", frame(0x3D, &body)));
+    // every length 0..=300 of a client id (both v3 protocols, v5) and of a user property's name + value, every SUBACK
+    // list length 0..=40 -- the encoder-side sweeps of wire.rs, as INPUT frames
+    for n in 0..=300usize {
+        let mut body = vec![0, 6, b'M', b'Q', b'I', b's', b'd', b'p', 3, 0x02, 0, 60];
+        body.extend(field(&vec![b'i'; n]));
+        out.push(("v3", frame(0x10, &body)));
+        let mut body = vec![0, 4, b'M', b'Q', b'T', b'T', 4, 0x02, 0, 60];
+        body.extend(field(&vec![b'i'; n]));
+        out.push(("v3", frame(0x10, &body)));
+        let mut body = vec![0, 4, b'M', b'Q', b'T', b'T', 5, 0x02, 0, 60, 0];
+        body.extend(field(&vec![b'i'; n]));
+        out.push(("v5", frame(0x10, &body)));
+        let mut up = vec![0x26];
+        up.extend(field(&vec![b'n'; n / 2]));
+        up.extend(field(&vec![b'v'; n - n / 2]));
+        let mut body = field(b"t");
+        body.extend(varint(up.len()));
+        body.extend(&up);
+        body.push(b'p');
+        out.push(("v5", frame(0x30, &body)));
+    }
+    for n in 0..=40usize {
+        let mut body = vec![0, 7, 0];
+        body.extend((0..n).map(|i| if i % 5 == 4 { 0x87u8 } else { 0x02 }));
+        out.push(("v5", frame(0x90, &body)));
+        let mut body = vec![0, 7];
+        body.extend((0..n).map(|i| if i % 5 == 4 { 0x80u8 } else { 0x01 }));
+        out.push(("v3", frame(0x90, &body)));
+    }
     out
 }
 
